@@ -353,6 +353,7 @@ struct Runner {
                         })
                     }
                     GS_OBS("getDegrees", STRUCT, { if (gr.getDegrees(twice != 0) != want) mismatch(STRUCT, "getDegrees", ""); })
+                    if (twice) GS_OBS("getDegrees", STRUCT, { if (gr.getDegrees() != want) mismatch(STRUCT, "getDegrees(default)", ""); })
                     if (twice) {
                         // default argument counts self-loops twice
                         for (unsigned i = 0; i < n; ++i) {
